@@ -130,8 +130,11 @@ def run_case(case, rng):
     if rng.random() < 0.2:
         extra_kw["max_trial_length"] = rng.choice([1, 2, 5])     # trials cut short: more of them, same guarantees
     case.params["max_trial_length"] = extra_kw.get("max_trial_length")
-    planner = LRTDP(heuristic=lambda s: h[s], bellman_error_margin=margin, randomize_action_order=rao,
-                    event_listener_class=Probe, seed=seed, **extra_kw)
+    from mon import defaults as Dflt
+    lkw, _om = Dflt.rely_on_defaults(case, rng, "LRTDP", dict(bellman_error_margin=margin, randomize_action_order=rao,
+                                                              event_listener_class=Probe, seed=seed, **extra_kw))
+    planner = LRTDP(heuristic=lambda s: h[s], **lkw)
+    Dflt.in_force(case, "LRTDP", planner, passed=lkw)
     reuse = rng.random() < 0.3
     if reuse:
         # the same planner object first plans on a sibling problem over the SAME state labels in which one more
